@@ -387,6 +387,16 @@ def make_sources(ck):
         if r[0] == "ok" and len(r[1]) == 0:
             out.append(("valid:zero-atoms:%s" % lab, g, text))
     out.append(("valid:xcfg:aux", "xcfg", XCFG_TEXT))
+    # a CIF whose operator list matches no tabulated setting (2_1 axis away from the origin, unknown symbol): the
+    # reader builds an ad-hoc space group for it
+    custom = NONP1_CIF
+    if "_symmetry_space_group_name_H-M" in custom or "_space_group" in custom:
+        custom = "\n".join(ln for ln in custom.split("\n") if not ln.lstrip().startswith(("_symmetry_space_group", "_space_group", "_symmetry_Int")))
+    custom = custom.replace("loop_\n_atom_site_label", "loop_\n_symmetry_equiv_pos_as_xyz\n'x, y, z'\n'-x+1/4, -y, z+1/2'\nloop_\n_atom_site_label", 1)
+    r = parse_separately("cif", "str", custom, None)
+    if r[0] == "ok" and len(r[1]) > 0:
+        out.append(("valid:cif:custom-operators", "cif", custom))
+        out.append(("valid:cif:custom-operators:auto", "auto", custom))
     out.append(("valid:pdffit:meta", "pdffit", PDFFIT_TEXT))
     out.append(("cif-none:data-only", "cif", "data_x\n_cell_length_a 3\n"))
     out.append(("cif-none:empty", "cif", ""))
